@@ -43,6 +43,7 @@ def gen_case(rng, force_pair=False):
         # an asymmetric bound that bites on both sides (lo + hi != 1), together with a missing-outcome model
         bound = [round(rng.uniform(0.2, 0.38), 3), round(rng.uniform(0.52, 0.7), 3)]
     use_miss_model = (missing is not None and rng.random() < 0.7) or force_pair
+    mbound = rng.choice([False, 0.001, [0.001, 0.9995], round(rng.uniform(0.05, 0.2), 3)]) if use_miss_model else False
     # truncation of the INITIAL outcome predictions: the documented `bound` of outcome_model, and continuous outcomes
     # skewed enough that a Gaussian fit predicts outside the observed range (clipped to [cb, 1-cb] by the code)
     qb = rng.choice(['none', 'none', 'sym', 'pair'])
@@ -79,7 +80,7 @@ def gen_case(rng, force_pair=False):
         df = df.copy()
         df['A'] = df['A'].astype(adtype)
     return {'df': df, 'meta': meta, 'bound': bound, 'bkind': b, 'miss_model': use_miss_model, 'adtype': adtype,
-            'alpha': rng.choice([0.05, 0.1, 0.2]), 'qbound': qbound, 'qkind': qb, 'refit': rng.random() < 0.5}
+            'alpha': rng.choice([0.05, 0.1, 0.2]), 'qbound': qbound, 'qkind': qb, 'refit': rng.random() < 0.5, 'mbound': mbound}
 
 
 def fit(case):
@@ -88,7 +89,13 @@ def fit(case):
     tm = TMLE(df, 'A', 'Y', alpha=case['alpha'])
     tm.exposure_model(meta['rhs'], bound=case['bound'], print_results=False)
     if case['miss_model']:
-        tm.missing_model('A + ' + meta['rhs'], print_results=False)
+        # the missing-outcome model takes a truncation bound of its own; on every other such case a bound nothing reaches
+        mb = case.get('mbound', False)
+        tm.missing_model('A + ' + meta['rhs'], bound=mb, print_results=False)
+        if mb:
+            ref = TMLE(df, 'A', 'Y', alpha=case['alpha'])
+            ref.missing_model('A + ' + meta['rhs'], print_results=False)
+            tm._verif_mref_ = (np.asarray(ref.m1W, dtype=float), np.asarray(ref.m0W, dtype=float), mb)
     tm.outcome_model('A + ' + meta['rhs'], bound=case.get('qbound', False), print_results=False)
     # the property is quantified over fits that converge: record whether the fluctuation GLM inside fit() did
     import statsmodels.api as sm
@@ -123,7 +130,7 @@ def check_case(ctx, fails, case, tr, small_exprs, small_refs):
     n = len(df)
     binary = meta['outcome'] == 'binary'
     payload = {'data': {c: [None if (isinstance(v, float) and v != v) else v for v in df[c].tolist()] for c in df.columns}, 'meta': meta, 'bound': case['bound'], 'miss_model': case['miss_model'],
-               'alpha': case['alpha'], 'bkind': case['bkind'], 'adtype': case.get('adtype', 'int64'), 'qbound': case.get('qbound', False), 'qkind': case.get('qkind', 'none'), 'refit': case.get('refit', False)}
+               'alpha': case['alpha'], 'bkind': case['bkind'], 'adtype': case.get('adtype', 'int64'), 'qbound': case.get('qbound', False), 'qkind': case.get('qkind', 'none'), 'refit': case.get('refit', False), 'mbound': case.get('mbound', False)}
     tag = 'TMLE'
     try:
         tm = fit(case)
@@ -155,6 +162,15 @@ def check_case(ctx, fails, case, tr, small_exprs, small_refs):
         e1, e0 = g1s * np.asarray(tm.m1W, dtype=float), g0s * np.asarray(tm.m0W, dtype=float)
     else:
         e1, e0 = g1s, g0s
+    if hasattr(tm, '_verif_mref_'):
+        r1, r0, mb = tm._verif_mref_
+        lo_, hi_ = (mb, 1 - mb) if isinstance(mb, float) else (mb[0], mb[1])
+        ctx.disagreements_checked += 1
+        ctx.count('missing_model(bound=%s)' % ('float' if isinstance(mb, float) else 'pair'))
+        for nm, got, raw in (('m1W', np.asarray(tm.m1W, dtype=float), r1), ('m0W', np.asarray(tm.m0W, dtype=float), r0)):
+            if np.max(np.abs(got - np.clip(raw, lo_, hi_))) > 1e-12:
+                fails.append((n, 'TMLE.missing_model.bound', 'missing_model(bound=%r): %s differs from the fitted probability of an observed outcome '
+                              'truncated to the bound (max |difference| %g)' % (mb, nm, float(np.max(np.abs(got - np.clip(raw, lo_, hi_))))), payload))
     ctx.disagreements_checked += 1
     if np.max(np.abs(g1t - e1)) > 1e-12 or np.max(np.abs(g0t - e0)) > 1e-12:
         fails.append((n, 'TMLE.denominators', 'the denominators used by fit() differ from the stored g1W / g0W%s (max |difference| %g for A=1, %g for A=0; '
@@ -313,6 +329,6 @@ def replay(ctx, payload):
     if payload.get('adtype', 'int64') != 'int64':
         df['A'] = df['A'].astype(payload['adtype'])
     run_cases(ctx, fails, [{'df': df, 'meta': payload['meta'], 'bound': payload['bound'], 'bkind': payload.get('bkind', '?'),
-                            'miss_model': payload['miss_model'], 'alpha': payload['alpha'], 'qbound': payload.get('qbound', False), 'qkind': payload.get('qkind', 'none'), 'refit': payload.get('refit', False),
+                            'miss_model': payload['miss_model'], 'alpha': payload['alpha'], 'qbound': payload.get('qbound', False), 'qkind': payload.get('qkind', 'none'), 'refit': payload.get('refit', False), 'mbound': payload.get('mbound', False),
                             'adtype': payload.get('adtype', 'int64')}])
     report(ctx, fails)
